@@ -299,7 +299,8 @@ class TranslateNode(Node, TranslatableTag):
 
         _vars = {
             k: to_liquid_string(context.resolve(k), auto_escape=auto_escape)
-            for k in self.re_vars.findall(message_text)
+            # Not `%%`, a literal percent sign, followed by `(name)s`.
+            for k in self.re_vars.findall(message_text.replace("%%", ""))
         }
 
         return message_text % _vars
